@@ -322,6 +322,51 @@ fn ntv2_trees(rep: &Report, outcomes: &Mutex<HashSet<u64>>) {
                     }
                     la += 0.29;
                 }
+                // next to the borders of every sub-grid (mid-edge points): a hair outside an edge the point belongs to
+                // the enclosing grid (either side's value is accepted within 1e-9 rad of the edge, but the point must
+                // not be FAILED when some grid contains it); 2e-7 rad (about a metre) inside an edge it belongs to this grid
+                for (i, r) in refs.iter().enumerate() {
+                    let (mlat, mlon) = (0.5 * (r.lat_s + r.lat_n), 0.5 * (r.lon_w + r.lon_e));
+                    for (edge, lon, lat, dlon, dlat) in [
+                        ("south", mlon, r.lat_s, 0., 1.),
+                        ("north", mlon, r.lat_n, 0., -1.),
+                        ("west", r.lon_w, mlat, 1., 0.),
+                        ("east", r.lon_e, mlat, -1., 0.),
+                    ] {
+                        for (eps, strict) in [(-1e-10, false), (1e-10, false), (2e-7, true), (-2e-7, true)] {
+                            // eps > 0: inside this sub-grid; eps < 0: outside it
+                            let c = Coor4D([lon + dlon * eps, lat + dlat * eps, 0., 0.]);
+                            rep.eval(1);
+                            let containing: Vec<usize> = (0..n).filter(|&k| refs[k].contains(c[0], c[1], 0.0)).collect();
+                            let deepest = containing.iter().copied().max_by_key(|&k| depth(k));
+                            let got = catch(|| grid.at(&c, 0.0));
+                            let close = |g: &Coor4D, k: usize| {
+                                let w = refs[k].at(c[0], c[1]);
+                                rel_close(g[0], w[0], 1e-4) && rel_close(g[1], w[1], 1e-4)
+                            };
+                            let ok = match (&got, deepest) {
+                                (Ok(None), None) => true,
+                                (Ok(Some(g)), Some(d)) => {
+                                    if strict {
+                                        close(g, d)
+                                    } else {
+                                        // within rounding of the edge: this sub-grid's value or the enclosing one's
+                                        close(g, d) || close(g, i) || containing.iter().any(|&k| close(g, k))
+                                    }
+                                }
+                                (Ok(Some(g)), None) => !strict && close(g, i),
+                                _ => false,
+                            };
+                            if !ok {
+                                rep.violation(
+                                    &format!("NTv2: a point next to a sub-grid border is failed although a grid contains it, or not looked up in the deepest containing sub-grid / {} edge, {}", edge, if strict { "a metre away" } else { "within rounding" }),
+                                    json!({"file": describe(), "subgrid": subs[i].name, "edge": edge, "offset_rad": eps, "lon_rad": c[0], "lat_rad": c[1], "observed": format!("{got:?}"),
+                                           "containing": containing.iter().map(|&k| subs[k].name.clone()).collect::<Vec<_>>(), "expected_subgrid": deepest.map(|k| subs[k].name.clone())}),
+                                );
+                            }
+                        }
+                    }
+                }
             }
         }
     }
@@ -427,6 +472,10 @@ fn operator_conventions(rep: &Report) {
         ("gridshift grids=@nothere.datum, @null", true),
         ("gridshift grids=@null", true),
         ("deformation grids=@nothere.deformation dt=1", false),
+        // the null grid for the deformation operator (which parses its grid list itself)
+        ("deformation grids=v.deformation, @null dt=1", true),
+        ("deformation grids=@null dt=1", true),
+        ("deformation grids=@nothere.deformation, @null t_epoch=2000", true),
     ] {
         rep.eval(1);
         let Ok(op) = ctx.op(def) else {
